@@ -102,6 +102,7 @@ func newConcWorld(c ConcCase, quiet bool, cur func() int) *concWorld {
 	cw.targets["tA"] = build(FuncSpec{ID: "tA", In: []Label{{"", 0, ""}}, InForm: FormPositional, Out: []Label{{"", 2, ""}}, OutForm: FormPositional})
 	cw.targets["tB"] = build(FuncSpec{ID: "tB", In: []Label{{"a", 0, ""}, {"q", 3, ""}}, InForm: FormStruct, Out: []Label{{"", 2, ""}}, OutForm: FormPositional})
 	raw3 := w.rawFunc(FuncSpec{ID: "c3", In: []Label{{"", 0, ""}}, Out: []Label{{"n", 3, "s"}}, InForm: FormStruct, OutForm: FormStruct})
+	raw4 := w.rawFunc(FuncSpec{ID: "c4", In: []Label{{"zz", 4, ""}}, Out: []Label{{"m", 4, "s"}}, InForm: FormStruct, OutForm: FormStruct})
 	gen := func(v am.Value) (*am.Func, error) { return nil, nil }
 	// one shared option slice with every option constructor; like any slice grown with
 	// append it has spare capacity
@@ -111,7 +112,7 @@ func newConcWorld(c ConcCase, quiet bool, cur func() int) *concWorld {
 		am.NamedSubtype("Q", T3{"shared-q"}, "s"),
 		am.Typed(T3{"shared-t3"}),
 		am.TypedSubtype(T3{"shared-t3s"}, "s"),
-		am.Converter(raw3),
+		am.Converter(raw3, raw4),
 		am.ConverterGen(gen),
 		am.FilterInput(am.FilterOr(am.FilterType(typeOf(1)), am.FilterType(typeOf(2)))),
 		am.FilterOutput(func(am.Value) bool { return true }),
@@ -124,8 +125,14 @@ func newConcWorld(c ConcCase, quiet bool, cur func() int) *concWorld {
 		panic(HarnessPanic{"conc: tD: " + err.Error()})
 	}
 	cw.targets["tD"] = td
-	// a redefined function shared by the threads (built from the shared slice)
-	rf, err := cw.targets["tA"].Redefine(cw.shared...)
+	// a redefined function shared by the threads. It is built from its *own* option
+	// values: applying the thread-shared options here would be their first use, and a
+	// first use that is concurrent is exactly what the threads must be able to exhibit.
+	own := append(make([]am.Arg, 0, 16),
+		am.ConverterFunc(c1, c2),
+		am.FilterInput(am.FilterOr(am.FilterType(typeOf(1)), am.FilterType(typeOf(2)))),
+		am.Logger(nullLogger))
+	rf, err := cw.targets["tA"].Redefine(own...)
 	if err != nil {
 		panic(HarnessPanic{"conc: Redefine: " + err.Error()})
 	}
